@@ -1,11 +1,17 @@
 // Harness for C08 (stream-id allocator, internal/streams): runs the REAL IDGenerator
-//   - sequentially on random op sequences (`seq` lines), and
+//
+//   - sequentially on random op sequences (`seq` lines: exact answers compared with the model; `smon` lines:
+//     every answer judged by the abstract id-set specification kept in this harness, runSmon), and
+//
 //   - in lock-step: k goroutines run scripts of GetStream/Clear/Available; the `verif` yield
 //     points (internal/streams/yield_on.go) park a goroutine in front of every atomic operation
 //     and a deterministic scheduler lets exactly one goroutine perform exactly one atomic
 //     operation per scheduling decision (`conc` lines). The observation stream (yield point
 //     reached / value returned per decision, final Available and bitset) is compared with the
 //     Lean small-step model replaying the same schedule.
+//
+//     The property monitors are evaluated on the real run of EVERY lock-step scenario, whether the scripts
+//     respect the client protocol (Clear only by the holder, once) or not (`mon` lines; runConcX).
 //
 // Every op line is a self-contained scenario (see lean/Driver/C08.lean for the grammar).
 package main
@@ -149,8 +155,10 @@ func seqTok(g *gocql.VerifStreams, w string) (string, bool) {
 // every op. `n/a` if Clear(0) is among the ops (excluded case).
 func runSmon(proto int, toks []string) (res string) {
 	for _, w := range toks {
-		if w == "c0" {
-			return "n/a"
+		if strings.HasPrefix(w, "c") {
+			if id, err := strconv.Atoi(w[1:]); err == nil && id == 0 {
+				return "n/a"
+			}
 		}
 	}
 	g := gocql.VerifStreamsNew(proto)
@@ -1486,7 +1494,11 @@ func main() {
 	for i := 0; i < 1500*mult; i++ {
 		genSeq(r, out)
 	}
-	for i := 0; i < 1500*mult; i++ {
+	smonN := 1500
+	if tier == "thorough" {
+		smonN = 15000 // the model pays ~3 ms per fill/release/refill scenario
+	}
+	for i := 0; i < smonN; i++ {
 		genSmon(r, out)
 	}
 	for i := 0; i < 5000*mult; i++ {
